@@ -808,6 +808,7 @@ func dischargeAll(p *Program, obls []*Obligation, cfg *SolveConfig) {
 	}
 	var mu sync.Mutex
 	_ = mu
+	files := map[*Obligation]string{}
 	for i, o := range obls {
 		if o.Verdict != "" {
 			continue
@@ -829,6 +830,7 @@ func dischargeAll(p *Program, obls []*Obligation, cfg *SolveConfig) {
 				os.WriteFile(file+".rel", []byte("; "+o.Name+" (relevant hypotheses only)\n"+qf), 0o644)
 			}
 		}
+		files[o] = file
 		wg.Add(1)
 		sem <- struct{}{}
 		go func(o *Obligation, file string) {
@@ -838,6 +840,32 @@ func dischargeAll(p *Program, obls []*Obligation, cfg *SolveConfig) {
 		}(o, file)
 	}
 	wg.Wait()
+	// second chance: an obligation that no solver decided while all cores were busy is tried again on a quiet
+	// machine (a few at a time, longer limit). A definite answer (sat) is never retried.
+	var retry []*Obligation
+	for _, o := range obls {
+		if !o.ExpectSat && (o.Verdict == "unknown" || o.Verdict == "timeout") && files[o] != "" {
+			retry = append(retry, o)
+		}
+	}
+	if len(retry) > 0 && len(retry) <= 24 {
+		cfg2 := *cfg
+		cfg2.t0, cfg2.t1, cfg2.t2 = cfg.t0*2, cfg.t1*2, cfg.t2*2
+		sem2 := make(chan struct{}, 3)
+		var wg2 sync.WaitGroup
+		for _, o := range retry {
+			first := o.Detail
+			wg2.Add(1)
+			sem2 <- struct{}{}
+			go func(o *Obligation, first string) {
+				defer wg2.Done()
+				defer func() { <-sem2 }()
+				solveFile(o, files[o], &cfg2)
+				o.Detail = o.Detail + " | first attempt: " + first
+			}(o, first)
+		}
+		wg2.Wait()
+	}
 }
 
 func solveFile(o *Obligation, file string, cfg *SolveConfig) {
